@@ -88,14 +88,16 @@ def branchOf (tw : TW) (aux : Aux) (op : Op) : List String :=
           (if (posCircle tw.n tw.tickedPos s).1 = e.slot then
              (if e.diff > 0 then ["retime-same-slot-pending-diff"] else ["retime-same-slot"]) else []) ++
           (if aux.relocated.contains k then ["retime-after-relocate"] else []) ++
-          (if s > tw.n then ["retime-multirev"] else [])
+          (if s > tw.n then ["retime-multirev"] else []) ++
+          (if s ≥ 2147483647 then ["delay-beyond-32-bits"] else [])
         (match moveCase tw.n tw.tickedPos e.slot s with
           | .keep _ _ => if e.slot ≤ tw.tickedPos then "set-existing-keep-wrapped" else "set-existing-keep"
           | .reinsert _ => "set-existing-reinsert") :: extra
       | none => ["set-new"]
     else
       (if s > tw.n then "set-new-multirev" else "set-new") ::
-        (if aux.ghosts.any (·.1 = k) then ["set-new-ghost-parked"] else []))
+        ((if aux.ghosts.any (·.1 = k) then ["set-new-ghost-parked"] else []) ++
+         (if s ≥ 2147483647 then ["delay-beyond-32-bits"] else [])))
   | .move k s =>
     if s = 0 then [if hasKey tw k then "move-immediate" else "move-immediate-absent"] else
     match tw.entries.find? (·.key = k) with
@@ -108,7 +110,9 @@ def branchOf (tw : TW) (aux : Aux) (op : Op) : List String :=
         (if (posCircle tw.n tw.tickedPos s).1 = e.slot then
            (if e.diff > 0 then ["retime-same-slot-pending-diff"] else ["retime-same-slot"]) else []) ++
         (if aux.relocated.contains k then ["retime-after-relocate"] else []) ++
-        (if s > tw.n then ["retime-multirev"] else [])
+        (if s > tw.n then ["retime-multirev"] else []) ++
+        (if s ≥ 2147483647 then ["delay-beyond-32-bits"] else []) ++
+        (if e.circle ≥ 2147483647 / tw.n then ["retime-from-beyond-32-bits"] else [])
       (match moveCase tw.n tw.tickedPos e.slot s with
         | .keep c _ => (if c = (posCircle tw.n tw.tickedPos s).2 then "move-keep" else "move-keep-circle-1") ++ w ++ pw
         | .reinsert _ => "move-reinsert" ++ w ++ pw) :: extra
